@@ -92,10 +92,18 @@ class Corr:
         self.unmodelled = {}
         self.skipped_impl = 0
 
-    def add(self, obj, ctx_modes, meta=None):
-        """ctx_modes: list of (name, SqlContext, mode). Returns list of (sql, vals) per ctx (None if skipped)."""
+    # shapes the generators may legitimately produce outside the modelled fragment (counted in the evidence, not a broken tie)
+    TOLERATED = ("clause item without an alias attribute",)
+
+    def unexpected_unmodelled(self):
+        return {k: v for k, v in self.unmodelled.items() if not k.startswith(self.TOLERATED)}
+
+    def add(self, obj, ctx_modes, meta=None, ref=None):
+        """ctx_modes: list of (name, SqlContext, mode). Returns list of (sql, vals) per ctx (None if skipped).
+        ref: an object built with the explicit constructors that says which tree `obj` (built through a convenience API) IS; it is
+        the one dumped, `obj` is the one rendered."""
         try:
-            text = Dumper().term(obj)
+            text = Dumper().term(obj if ref is None else ref)
         except Unmodelled as e:
             k = str(e)[:60]
             self.unmodelled[k] = self.unmodelled.get(k, 0) + 1
